@@ -3,7 +3,7 @@ CONSTANTS
   FrameAlphabet <- FramesCore
   MaxFrames = 4
   MaxSubs = 2
-  MaxNotes = 1
+  MaxNotes = 2
   MaxEntries = 2
   PoolSize = 2
   AllowClose = FALSE
